@@ -203,6 +203,22 @@ Definition uf_same (m : links) (a b : N) : links * bool :=
   let '(m2, j) := uf_find m1 b in
   (m2, N.eqb i j).
 
+(* operation histories *)
+Inductive uop := UUnion (a b : N) | UFind (a : N) | USame (a b : N).
+Definition uf_step (m : links) (op : uop) : links :=
+  match op with
+  | UUnion a b => fst (uf_union m a b)
+  | UFind a => fst (uf_find m a)
+  | USame a b => fst (uf_same m a b)
+  end.
+Definition uf_exec (m : links) (ops : list uop) : links := fold_left uf_step ops m.
+Fixpoint unions_of (ops : list uop) : list (N * N) :=
+  match ops with
+  | [] => []
+  | UUnion a b :: r => (a, b) :: unions_of r
+  | _ :: r => unions_of r
+  end.
+
 (* find without observing the compressed map *)
 Definition uf_root (m : links) (k : N) : N := snd (uf_find m k).
 
